@@ -180,3 +180,11 @@ func verifLemmaBaseOrientationMultiplicative(f Feature) (o1 Orientation, r1 Feat
 //@   trusted
 //@   pure
 //@   ensures -1 <= result && result <= 2
+
+// Name, Description and Len are observers too (pure; nothing else is assumed about them).
+//@ func (Feature).Name
+//@   pure
+//@ func (Feature).Description
+//@   pure
+//@ func (Range).Len
+//@   pure
